@@ -72,6 +72,8 @@ var transTargets = []transTarget{
 	{"node/node.go", "Context", "invokeProcessorAsync", "closure:errFunc", "ncAsyncErrFunc"},
 	{"node/node.go", "Context", "invokeProcessorAsync", "closure:eventFunc", "ncAsyncEventFunc"},
 	{"node/node.go", "Context", "invokeProcessorAsync", "closure:filterFunc", "ncAsyncFilterFunc"},
+	{"executor/executor.go", "Executor", "setupNodes", "", "exSetupNodes"},
+	{"executor/executor.go", "Executor", "Shutdown", "", "exShutdown"},
 	// C17 / C03
 	{"executor/executor.go", "Executor", "Execute", "tail1", "exExecuteTail"},
 	{"executor/executor.go", "", "waitTimeout", "", "exWaitTimeout"},
